@@ -306,8 +306,11 @@ def evaluate__substring(self: XPathFunction, context: ta.ContextType = None) -> 
         context = self.context
 
     item: str = self.get_argument(context, default='', cls=str)
+    # XPath 1.0: an empty node-set position or length is converted with number() (NaN)
+    xpath1 = self.parser.version == '1.0'
     try:
-        start = self.get_argument(context, index=1, required=True)
+        start = self.get_argument(context, index=1, required=not xpath1,
+                                  default=math.nan if xpath1 else None)
         if isinstance(start, XPathNode):
             # a node argument is converted with number() (XPath 1.0) or atomized
             start = self.number_value(start) if self.parser.version == '1.0' \
@@ -331,7 +334,8 @@ def evaluate__substring(self: XPathFunction, context: ta.ContextType = None) -> 
         return item[max(start, 0):]
     else:
         try:
-            length = self.get_argument(context, index=2, required=True)
+            length = self.get_argument(context, index=2, required=not xpath1,
+                                       default=math.nan if xpath1 else None)
             if isinstance(length, XPathNode):
                 length = self.number_value(length) if self.parser.version == '1.0' \
                     else self.data_value(length)
